@@ -242,7 +242,11 @@ def preferred_simple_match_rule(ck, ix):
     a product of one exponent of the quantity and one of the unit, one taken from the head and one from the tail; a
     power (or any other operator) accepts non-proportional exponents and the returned unit has the wrong dimension."""
     m = ix.module(QTO)
-    fs = [g for g in m.all_functions if g.name == "find_simple"]
+    # by role: the simple-match shortcut is the function defined inside _get_preferred that is called without arguments
+    # and whose answer _get_preferred hands back (`s = <it>(); if s is not None: return s`), whatever it is called
+    gp = ix.func(QTO, "_get_preferred")
+    shortcut = {norm(v.func) for v in (shape.resolve(r.value, gp.node) for r in shape.returns_of(gp.node)) if isinstance(v, ast.Call) and isinstance(v.func, ast.Name) and not v.args and not v.keywords}
+    fs = [g for g in m.all_functions if g.parent is gp and g.name in shortcut]
     ck.floor("G-PROV", len(fs), 1, "find_simple")
     for f in fs:
         ck.analysed(f)
